@@ -330,7 +330,7 @@ impl<T: Engine> Block for FftFilter<T> {
 /// therefore, this Float version of the FftFilter has a little worse
 /// performance than the Complex filter.
 #[derive(rustradio_macros::Block)]
-#[rustradio(crate)]
+#[rustradio(crate, noeof)]
 pub struct FftFilterFloat<T: Engine> {
     complex: FftFilter<T>,
     #[rustradio(in)]
@@ -386,6 +386,31 @@ impl<T: Engine> FftFilterFloat<T> {
             },
             dr,
         )
+    }
+}
+
+impl<T: Engine> crate::block::BlockEOF for FftFilterFloat<T> {
+    /// The block is not done while filtered samples are still waiting inside
+    /// it (the output stream was full when they were produced), or while the
+    /// inner filter still has a whole batch of input to work on.
+    fn eof(&mut self) -> bool {
+        if !self.src.eof() {
+            return false;
+        }
+        let pending_out = self
+            .inner_out
+            .read_buf()
+            .map(|(b, _)| !b.is_empty())
+            .unwrap_or(false);
+        let pending_in = self
+            .complex
+            .src
+            .read_buf()
+            .map(|(b, _)| b.len())
+            .unwrap_or(0)
+            + self.complex.buf.len()
+            >= self.complex.nsamples;
+        !pending_out && !pending_in
     }
 }
 
